@@ -862,6 +862,8 @@ impl<'ast, 'c> Visit<'ast> for FnVisitor<'c> {
 			}
 			let recv = match &*fl.expr {
 				syn::Expr::MethodCall(mc) if mc.method == "iter" && mc.args.is_empty() => br(mc.receiver.span()),
+				// `for PAT in X.into_iter()` over an owned Vec named by a path: as `for PAT in X`
+				syn::Expr::MethodCall(mc) if mc.method == "into_iter" && mc.args.is_empty() && matches!(&*mc.receiver, syn::Expr::Path(_)) && (lc.by_value_as_ref || lc.by_copy || lc.by_clone) => br(mc.receiver.span()),
 				// `for PAT in X` over an owned Vec named by a path: the index loop binds `&X[i]`; accepted only because the
 				// generated text must still type-check, i.e. the body only reads the element
 				syn::Expr::Path(_) if lc.by_value_as_ref || lc.by_copy || lc.by_clone || lc.map_entries => br(fl.expr.span()),
@@ -1968,6 +1970,14 @@ fn main() {
 		if !it.stub || !matches!(find_item(&file.items, &it.path), Some(Found::Fn(_)) | Some(Found::Impl(..))) {
 			seq += 1_000_000;
 			apply_replaces(src, src_span.0, src_span.1, &it.replace, &mut edits, &mut ctx.rules, &mut seq);
+		}
+		// an explicit sidecar replacement of a whole `format!(..)` wins over the automatic `vf_format()` lowering of that macro
+		{
+			let snapshot = edits.clone();
+			edits.retain(|e| {
+				let auto_fmt = e.rule == "L1" && e.parts.len() == 1 && matches!(&e.parts[0], Part::Text(t) if t == "vf_format()");
+				!(auto_fmt && snapshot.iter().any(|o| (o.start, o.end, o.seq) != (e.start, e.end, e.seq) && o.start <= e.start && e.end <= o.end && !(o.parts.len() == 1 && matches!(&o.parts[0], Part::Text(t) if t == "vf_format()"))))
+			});
 		}
 		if raw {
 			edits.retain(|e| e.rule == "D1" || e.rule == "D2");
